@@ -4,7 +4,7 @@ from harness.props import reaction_common as rc
 
 
 def run(ctx):
-    level, cov, assume = rc.run(ctx, 'C05', rc.APPLY, rc.SHAPE + ['set_X', 'mul', 'add'])
+    level, cov, assume = rc.run(ctx, 'C05', rc.APPLY_C05, rc.SHAPE + ['set_X', 'mul', 'add'])
     # phase-tagged reactions on multi-phase streams (ReactEnergy.tla): infeasible conversions must be refused
     cov['phase_tagged_feasibility'] = c06.tagged_feasibility(ctx)
     assume = assume + ['phase-tagged reactions on multi-phase streams are exercised through ReactEnergy.tla (synthetic chemicals): material and '
